@@ -99,3 +99,20 @@ pub fn name_nets(k: u16) -> Result<Vec<Arc<Bound>>, String> {
     }
     Ok(out)
 }
+
+/// Networks that are unusual as DATA: constants only, a constant feeding a toggle, four variables,
+/// an implicit function of three regulators (256 valuations), a variable that regulates nothing.
+pub fn edge_nets(k: u16) -> Result<Vec<Arc<Bound>>, String> {
+    let specs = [
+        ("allc2", "$a: true; $b: false"),
+        ("cst2", "a -?? b; b -| b; $a: true; $b: a & !b"),
+        ("lin4", "a -> b; b -> c; c -> d; d -| a; $a: !d; $b: a; $c: b; $d: c"),
+        ("imp4", "a -?? d; b -?? d; c -?? d; $a: a; a -> a; $b: !c; c -| b; $c: b; b -> c"),
+        ("sink3", "a -> b; a -> c; a -| a; $a: !a; $b: a; $c: a & c; c -> c"),
+    ];
+    let mut out = vec![];
+    for (name, text) in specs {
+        out.push(Arc::new(bind(name, &crate::nets::spec(text), k)?));
+    }
+    Ok(out)
+}
